@@ -155,9 +155,10 @@ class NamespaceFunction(Namespace[symtable.Function]):
             self.symt.get_frees(),
             self.symt.get_nonlocals(),
         ):
-            if self.is_method and nonlocal_free == "__class__":
-                # methods may have implicit reference the __class__ (PEP-3135)
-                # which is not need here
+            if nonlocal_free == "__class__":
+                # methods, and functions nested in methods, may have an
+                # implicit reference to __class__ (PEP-3135), it is provided
+                # by the class loader and has no owner among the functions
                 self.zero_arg_super_used = True
                 continue
 
